@@ -475,7 +475,7 @@ def rg_recipes(draw, tier):
         dist = draw(DIST)
     else:
         dist = [draw(DIST) for _ in range(nd)]
-    return {"shape": shape, "dist": dist, "harmonic": draw(st.booleans()),
+    return {"shape": shape, "dist": dist, "harmonic": draw(st.sampled_from([True, True, False])),
             "via": draw(st.sampled_from(["rg", "rgc"])), "proto": draw(st.integers(2, 5))}
 
 
@@ -699,7 +699,7 @@ def check_power(rec):
     mids = 0.5 * (u[:-1] + u[1:])
     bn = rec["bin"]
     kind = bn["k"]
-    classes = [pdesc[0], f"{len(pf.shape)}d" if pdesc[0] != "lm" else "lm"]
+    classes = [pdesc[0] + "_partner"] + ([f"{len(pf.shape)}d"] if pdesc[0] != "lm" else [])
     bb, must_work = None, True
     if kind in ("linear", "log") and len(mids) >= 2:
         i = min(int(bn["a"] * (len(mids) - 1)), len(mids) - 2)
